@@ -11,6 +11,11 @@ pub struct TypeRef<T: Element + ?Sized = dyn Type> {
     pub scope: Scope,
     pub attributes: Vec<WeakPtr<Attribute>>,
     pub span: Span,
+
+    /// True if the type was referenced by its name (structs, enums, custom types, type aliases, ...), false if it
+    /// was written in place (primitives, sequences, dictionaries and results). This doesn't change when the reference
+    /// is patched: a reference that reaches a sequence, dictionary or result by name reached it through a type alias.
+    pub is_named_reference: bool,
 }
 
 impl<T: Element + ?Sized> TypeRef<T> {
@@ -44,6 +49,7 @@ impl<T: Element + ?Sized> TypeRef<T> {
             scope: self.scope.clone(),
             attributes: self.attributes.clone(),
             span: self.span.clone(),
+            is_named_reference: self.is_named_reference,
         })
     }
 }
